@@ -23,8 +23,8 @@ LEAN_MODULES = ["MpfVerif.Props.C09"]
 PROPS_FILE = "MpfVerif/Props/C09.lean"
 GEN = []
 MANIFEST = {
-  "text": "Proof on a Lean model of the light priority stack (mpf/devices/light.py), its hardware-target computation with both suppression shortcuts, the fade-out delays, the brightness factor, the colour-correction lookup, default_on_color scaling of Light.on(), the RGBW channel mapping (min_rgb / duck_rgb / white_only), and the fade stepping of LightPlatformDirectFade both as software fade (max_fade_ms = 0) and on hardware that fades by itself (max_fade_ms > 0): for every sequence of color/on/off/remove/clear commands, delay firings and clock advances the stack stays strictly sorted by (priority, key) with unique keys; the logical colour is that of the top entry, interpolated with exact integer arithmetic and never outside its endpoints; a new fading entry starts from the colour of the entries that do not sort above it; removing a key (or all keys) restores exactly the stack without it (off when empty); the last hardware target colour sent always equals the target of the current stack (so the suppression shortcuts never lose an update) and equals the logical colour once all fades and fade-outs are over; a channel has at most one live stepping task, it belongs to the latest command, and when none is live the last commanded brightness is the latest command's target; the stepping task of LightPlatformDirectFade._fade with any max_fade_ms hands over only pairs of the latest command, within the hardware's maximum fade and on the logical fade line, the last one carrying the target and exactly the remaining time, while set_fade as the code is starts that task only when (target_time - now)/1000.0 exceeds max_fade_ms and otherwise hands the target over at once (so the at-rest clause holds on hardware-fading lights; that the hardware is told to jump - D30 - is outside the property and only counted); the RGBW mapping keeps all four channels in 0..255 and white plus channel reproduces the colour; brightness is monotone, never brightens and maps black to black; and, on a model of PlatformBatchLightSystem (dirty set swapped out by the sender, awaited update callback, re-scheduling of running fades, hardware fades up to max_fade_ms with the target cache as the code has it (a repeated update answers fade 0 - D31, outside the property, only counted), grouping into lists of successive channels bounded by batch size and fade tolerance), for every interleaving of set_fade commands with scheduler iterations, sender computations and callback starts/completions no dirty light is ever lost, every dirty light of a round is handed to the callback exactly once whatever the grouping, the grouping function returns every queued light exactly once in lists of successive channels within the batch size, and at rest the platform has received the target brightness of every light's latest fade. The models are tied to the real Light on the direct (VirtualLight), software-faded (DriverLight on real Drivers), hardware-fading direct (a test light deriving from the real LightPlatformDirectFade with max_fade_ms > 0) and batched (real PlatformBatchLightSystem, with and without hardware fades, batch sizes 1..16, extra lights with their own commands) back ends by a correspondence run on every check, with a model-independent oracle that states what C09 states (logical colour = top entry, interpolated within its endpoints; remove restores, clear turns off; at rest the last commanded brightness of every channel on every back end equals the corrected logical colour); the transient hardware output (pairs on the logical line, start brightness of interrupted fades, exactly-once and sequential lists per round) is compared with the model and counted as observations, not required.",
-  "note": "Trusted: Lean kernel + {propext, Classical.choice, Quot.sound}; the hand-written models Model/Light.lean and Model/BatchLight.lean (validated only by differential runs); float interpolation in the implementation is compared (exact on the 1/8 s grid for the stack, 1e-9 for channel brightness), not proved; the colour-correction profile enters the model as its 3x256 lookup table (the float generator generate_from_parameters is not modelled; whether the configured table is monotone is only observed and counted); the brightness factor is modelled for the quarter values 0.25..1.0; is_successor_of is modelled as 'next channel number' (the test platform's definition); the batch system's poll sleep is abstracted (a round may start whenever something is dirty); FASTLEDChannel's own copy of get_fade_and_brightness and the hardware platforms' serial encodings of (brightness, fade) are not exercised.",
+  "text": "Proof on a Lean model of the light priority stack (mpf/devices/light.py), its hardware-target computation with both suppression shortcuts, the fade-out delays, the brightness factor, the colour-correction lookup, default_on_color scaling of Light.on(), the RGBW channel mapping (min_rgb / duck_rgb / white_only), and the fade stepping of LightPlatformDirectFade both as software fade (max_fade_ms = 0) and on hardware that fades by itself (max_fade_ms > 0): for every sequence of color/on/off/remove/clear commands, delay firings and clock advances the stack stays strictly sorted by (priority, key) with unique keys; the logical colour is that of the top entry, interpolated with exact integer arithmetic and never outside its endpoints; a new fading entry starts from the colour of the entries that do not sort above it; removing a key (or all keys) restores exactly the stack without it (off when empty); the last hardware target colour sent always equals the target of the current stack (so the suppression shortcuts never lose an update) and equals the logical colour once all fades and fade-outs are over; on the device as a whole (stack + brightness factor + correction table + channel mapping + fade channels, any configuration, any history of commands, delay firings, clock advances and task resumptions) the latest set_fade command of every hardware channel targets the channel value of the CORRECTED target colour of the current stack although the shortcuts compare uncorrected colours with the remembered last target - whatever coincidences there are between a new colour and the corrected or uncorrected value of an earlier one - and hence at rest the brightness last commanded to every channel is the corrected logical colour; a channel has at most one live stepping task, it belongs to the latest command, and when none is live the last commanded brightness is the latest command's target; the stepping task of LightPlatformDirectFade._fade with any max_fade_ms hands over only pairs of the latest command, within the hardware's maximum fade and on the logical fade line, the last one carrying the target and exactly the remaining time, while set_fade as the code is starts that task only when (target_time - now)/1000.0 exceeds max_fade_ms and otherwise hands the target over at once (so the at-rest clause holds on hardware-fading lights; that the hardware is told to jump - D30 - is outside the property and only counted); the RGBW mapping keeps all four channels in 0..255 and white plus channel reproduces the colour; brightness is monotone, never brightens and maps black to black; and, on a model of PlatformBatchLightSystem (dirty set swapped out by the sender, awaited update callback, re-scheduling of running fades, hardware fades up to max_fade_ms with the target cache as the code has it (a repeated update answers fade 0 - D31, outside the property, only counted), grouping into lists of successive channels bounded by batch size and fade tolerance), for every interleaving of set_fade commands with scheduler iterations, sender computations and callback starts/completions no dirty light is ever lost, every dirty light of a round is handed to the callback exactly once whatever the grouping, the grouping function returns every queued light exactly once in lists of successive channels within the batch size, and at rest the platform has received the target brightness of every light's latest fade. The models are tied to the real Light on the direct (VirtualLight), software-faded (DriverLight on real Drivers), hardware-fading direct (a test light deriving from the real LightPlatformDirectFade with max_fade_ms > 0) and batched (real PlatformBatchLightSystem, with and without hardware fades, batch sizes 1..16, extra lights with their own commands) back ends by a correspondence run on every check, with a model-independent oracle that states what C09 states (logical colour = top entry, interpolated within its endpoints; remove restores, clear turns off; at rest the last commanded brightness of every channel on every back end equals the corrected logical colour); the transient hardware output (pairs on the logical line, start brightness of interrupted fades, exactly-once and sequential lists per round) is compared with the model and counted as observations, not required.",
+  "note": "Trusted: Lean kernel + {propext, Classical.choice, Quot.sound}; the hand-written models Model/Light.lean and Model/BatchLight.lean (validated only by differential runs); float interpolation in the implementation is compared (exact on the 1/8 s grid for the stack, 1e-9 for channel brightness), not proved; the colour-correction profile enters the model as its 3x256 lookup table (the float generator generate_from_parameters is not modelled; whether the configured table is monotone is only observed and counted); the brightness factor is modelled for the quarter values 0.25..1.0; is_successor_of is modelled as 'next channel number' (the test platform's definition); the batch system's poll sleep is abstracted (a round may start whenever something is dirty); the device-level theorems (channel_target_is_corrected_stack_target, corrected_output_at_rest) are about drun/dstep in Lemmas/LightDev.lean, which dispatch exactly as the Lean driver's driverStep does on parsed lines (same DSt.apply / stepTask calls; the string parsing itself is not part of the statement); the generator takes the correction table from a real light of a machine booted with the generated config; FASTLEDChannel's own copy of get_fade_and_brightness and the hardware platforms' serial encodings of (brightness, fade) are not exercised.",
   "technique": "Lean 4 theorems (invariants by induction over all operation sequences) on a hand model + differential correspondence with real Light devices on five real back ends + hardware-output oracle",
   "translated": False,
  }
@@ -33,7 +33,12 @@ RULE = ("a case = a machine variant (update rate 8/4/2 Hz, with or without a col
         "lights and 0/2/8/100 ticks for the batched lights, batch size 1/2/3/5/16) and a history of "
         "4-14 commands (color with fade 0..16 ticks incl. non-dyadic, priorities 0..3 biased to ties, keys ''/a..d, "
         "explicit past start_time; Light.on(brightness) / Light.off(); remove with/without fade-out; clear; an add-then-remove "
-        "probe; bursts inside one callback; 40% of the cases start with two or three keys removed with overlapping fade-outs "
+        "probe; bursts inside one callback; blocks of coincidences aimed at the suppression shortcuts of _schedule_update: "
+        "chains X -> corrected(X) -> corrected(corrected(X)) (and reversed) computed from the lights' own correction table "
+        "and brightness factor, as the new colour of the same key or of a key on top, the earlier command instant / its "
+        "fade finished / just ending / running; the same colour re-issued under another key or priority; a fade to the "
+        "colour already shown and a fade whose target equals its start; the same command twice at one instant (one callback "
+        "or two) and again after a remove/clear; removal of a key whose colour equals the one beneath; 40% of the cases start with two or three keys removed with overlapping fade-outs "
         "(inside each other's window, same instant, exactly at a window's end) followed by a lower-priority fade) at gaps of "
         "0..20 ticks biased to land inside running fades, on fade ends and on fade-out ends, applied "
         "to 7 real lights (RGB/single x direct/software-faded/hardware-fading, plus an RGBW light in one of the three white "
@@ -126,16 +131,155 @@ def on_color(onc, b):
     return [min(x * b // 255, 255) for x in onc]
 
 
-def gen_case(r):
+# colours for the coincidence blocks: bright enough that the single-channel lights (min of the components) see them too
+XS = [(255, 255, 255), (100, 100, 100), (254, 128, 127), (50, 200, 50), (230, 25, 7), (200, 120, 60), (255, 0, 0),
+      (128, 128, 128), (64, 255, 192)]
+_TABLE = None
+
+
+def correction_table():
+    """the 3 x 256 lookup table of the colour correction profile the generated machines configure (p1), read from a real
+    light of a real machine booted with that config: the generator needs it to produce colours that are the corrected
+    image of another colour on exactly these lights"""
+    global _TABLE
+    if _TABLE is None:
+        try:
+            vm = VMachine(config_yaml(8, True), platform=None).start()
+        except BootError as e:
+            raise InfraError("C09 machine does not boot: %s" % e)
+        try:
+            prof = vm.machine.lights["d3"]._color_correction_profile
+            if prof is None:
+                raise InfraError("no colour correction profile on d3")
+            _TABLE = [list(prof._lookup_table[i]) for i in range(3)]
+        finally:
+            vm.stop()
+    return _TABLE
+
+
+def corr_image(c, profile, q, table):
+    """what a light with brightness factor q/4 and (if `profile`) the correction table sends for the colour c"""
+    c = list(c)
+    if q != 4:
+        c = [x * q // 4 for x in c]
+    if profile:
+        c = [table[i][c[i]] for i in range(3)]
+    return c
+
+
+def blk_corrected_chain(r, dt, cim):
+    """X, then corrected(X) [, then corrected(corrected(X)) ...] as the new colour of the same key / of a key on top,
+    the earlier command instant, its fade finished, just ending, or still running"""
+    cand = [x for x in XS if cim(x) != list(x) and cim(cim(x)) != cim(x)] or [x for x in XS if cim(x) != list(x)] or XS
+    x = list(r.choice(cand))
+    if r.random() < 0.25:
+        x = [r.randrange(16, 256) for _ in range(3)]
+    if r.random() < 0.6:
+        p, key = 3, "d"           # sorts above everything the generator uses
+    else:
+        p, key = r.choice([0, 1, 1, 2, 3]), r.choice(KEYS[:5])
+    f = r.choice([0, 0, 0, 2, 4])
+    links = r.choice([1, 2, 2, 3])
+    chain = [x]
+    for _ in range(links):
+        chain.append(cim(chain[-1]))
+    if r.random() < 0.3:
+        chain.reverse()           # ... or the other way round: every new colour is a colour whose corrected image is shown
+    out = [[dt, "color", chain[0], f, p, key, 0]]
+    for y in chain[1:]:
+        gap = r.choice([f + 1, f + 1, f + 2, f + 5, f, f - 1]) if f else r.choice([0, 0, 1, 1, 3, 8, -1])
+        how = r.random()
+        if how < 0.65:
+            p2, k2 = p, key
+        elif how < 0.85:
+            p2, k2 = min(p + 1, 3), r.choice(KEYS[:5])
+        else:
+            p2, k2 = r.choice([0, 1, 2, 3]), r.choice(KEYS[:5])
+        f = r.choice([0, 0, 0, 0, 2, 4])
+        out.append([gap, "color", y, f, p2, k2, 0])
+        p, key = p2, k2
+    return out
+
+
+def blk_same_colour(r, dt):
+    """the same colour re-issued under another key / priority (or the same key): a fade to the colour already shown, a fade
+    whose target equals its start; then the removal of a key whose colour equals the one beneath"""
+    x = list(r.choice(XS + COLORS))
+    p = r.choice([0, 1, 2])
+    k1, k2 = r.sample(KEYS[:5], 2)
+    if r.random() < 0.2:
+        k2 = k1
+    f1 = r.choice([0, 0, 0, 2, 4])
+    out = [[dt, "color", x, f1, p, k1, 0]]
+    gap = r.choice([0, 0, 1, -1, f1, f1 + 1, max(f1 - 1, 0)])
+    p2 = r.choice([p, p, p + 1, p + 1, max(p - 1, 0)])
+    f2 = r.choice([0, 0, 2, 4, 8])
+    out.append([gap, "color", x, f2, p2, k2, 0])
+    if r.random() < 0.7:
+        out.append([r.choice([0, 1, f2, f2 + 1, 3, -1]), "remove", r.choice([k2, k2, k1]), r.choice([0, 0, 2, 4])])
+        if r.random() < 0.3:
+            out.append([r.choice([0, 1, 5]), "remove", k1 if out[-1][2] == k2 else k2, r.choice([0, 0, 2])])
+    return out
+
+
+def blk_twice(r, dt):
+    """the same command twice at the same instant (in one callback, or with the loop running in between)"""
+    key, p = r.choice(KEYS[:5]), r.choice([0, 1, 1, 2, 3])
+    c = list(r.choice(COLORS + XS))
+    f = r.choice([0, 0, 2, 4, 8])
+    out = [[dt, "color", c, f, p, key, 0], [r.choice([0, -1, -1]), "color", c, f, p, key, 0]]
+    k = r.random()
+    if k < 0.35:
+        g = r.choice([0, 2, 4])
+        out += [[r.choice([0, 1, f, f + 1]), "remove", key, g], [r.choice([0, -1, -1]), "remove", key, g]]
+    elif k < 0.5:
+        out += [[r.choice([0, 1, f + 1]), "clear"], [r.choice([0, -1]), "clear"]]
+    if k < 0.5 and r.random() < 0.6:
+        # ... and the very same command again after the key is gone
+        out.append([r.choice([0, 0, 1, 5, -1]), "color", c, f, p, key, 0])
+    elif k >= 0.5 and r.random() < 0.3:
+        # ... and again after another key was set above it and removed / after its fade is over
+        k2 = r.choice([x for x in KEYS[:5] if x != key])
+        out += [[r.choice([0, 1]), "color", list(r.choice(COLORS)), r.choice([0, 2]), 3, k2, 0], [r.choice([0, 1, 3]), "remove", k2, 0],
+                [r.choice([0, 1, f + 1]), "color", c, f, p, key, 0]]
+    return out
+
+
+def gen_case(r, table=None):
     hz = r.choice([8, 8, 4, 2])
     onc = r.choice(ON_COLORS)
+    profile = r.random() < 0.25
+    bright = r.choice([4, 4, 4, 3, 2, 1])
+    # correction changes colours on this machine: commands whose colour is the corrected image of the one before
+    active = table is not None and (profile or bright != 4)
+
+    def cim(c):
+        return corr_image(c, profile, bright, table)
     ops = []
     n = r.randint(4, 14)
     pending = []      # tick offsets (relative to now) at which something interesting ends
-    if r.random() < 0.4:
+
+    def emit(op):
+        d = max(op[0], 0)
+        pending[:] = [p - d for p in pending if p - d >= 0]
+        ops.append(op)
+        if op[1] == "color" and op[3]:
+            pending.append(max(op[3] - op[6], 0))
+        elif op[1] == "remove" and op[3]:
+            pending.append(op[3])
+
+    lead = r.random()
+    if lead < 0.4:
         pending.append(gen_overlap(r, ops))
         n = r.randint(0, 6)
-    for _ in range(n):
+    elif active and lead < 0.6:
+        for op in blk_corrected_chain(r, 0, cim):
+            emit(op)
+        n = r.randint(0, 8)
+    end_chain = active and r.random() < 0.15
+    i = 0
+    while i < n:
+        i += 1
         k = r.random()
         if pending and k < 0.45:
             dt = max(0, r.choice(pending) + r.choice([-1, 0, 0, 1]))
@@ -145,38 +289,46 @@ def gen_case(r):
             dt = -1          # same callback as the previous command: the loop does not run in between
         else:
             dt = r.choice([1, 1, 2, 3, 5, 8, 13, 20])
-        pending = [p - max(dt, 0) for p in pending if p - max(dt, 0) >= 0]
         kind = r.random()
         key = r.choice(KEYS[:5])
-        if kind < 0.6:
+        if kind < 0.16:
+            # coincidences the suppression logic of _schedule_update could confuse
+            which = r.random()
+            if active and which < 0.5:
+                blk = blk_corrected_chain(r, dt, cim)
+            elif which < 0.8:
+                blk = blk_same_colour(r, dt)
+            else:
+                blk = blk_twice(r, dt)
+            for op in blk:
+                emit(op)
+            i += 1
+        elif kind < 0.66:
             fade = r.choice([0, 0, 0, 1, 2, 3, 4, 5, 6, 7, 8, 12, 16])
             st_back = r.choice([0, 0, 0, 0, 0, 1, 2]) if fade else 0
             how = r.random()
             if how < 0.12:        # Light.on(brightness): the colour is default_on_color scaled
                 b = r.choice(ON_BRIGHTNESS)
-                ops.append([dt, "color", on_color(onc, b), fade, r.choice([0, 1, 1, 2, 3]), key, 0, ["on", b]])
-                st_back = 0
+                emit([dt, "color", on_color(onc, b), fade, r.choice([0, 1, 1, 2, 3]), key, 0, ["on", b]])
             elif how < 0.18:      # Light.off()
-                ops.append([dt, "color", [0, 0, 0], fade, r.choice([0, 1, 1, 2, 3]), key, 0, ["off"]])
-                st_back = 0
+                emit([dt, "color", [0, 0, 0], fade, r.choice([0, 1, 1, 2, 3]), key, 0, ["off"]])
             else:
-                ops.append([dt, "color", list(r.choice(COLORS)), fade, r.choice([0, 1, 1, 2, 3]), key, st_back])
-            if fade:
-                pending.append(fade - st_back)
-        elif kind < 0.85:
-            fade = r.choice([0, 0, 1, 2, 3, 4, 5, 8, 16])
-            ops.append([dt, "remove", key, fade])
-            if fade:
-                pending.append(fade)
-        elif kind < 0.92:
-            ops.append([dt, "clear"])
+                emit([dt, "color", list(r.choice(COLORS)), fade, r.choice([0, 1, 1, 2, 3]), key, st_back])
+        elif kind < 0.87:
+            emit([dt, "remove", key, r.choice([0, 0, 1, 2, 3, 4, 5, 8, 16])])
+        elif kind < 0.93:
+            emit([dt, "clear"])
         else:
-            ops.append([dt, "probe", list(r.choice(COLORS))])
-    return {"hz": hz, "profile": r.random() < 0.25, "ops": ops, "tail": r.choice([20, 24, 40]),
+            emit([dt, "probe", list(r.choice(COLORS))])
+    if end_chain:
+        # the chain is the last thing that happens: the batched platform's transmission lag has time to pass
+        for op in blk_corrected_chain(r, (max(pending) + 1) if pending and r.random() < 0.7 else r.choice([0, 1, 3]), cim):
+            emit(op)
+    return {"hz": hz, "profile": profile, "ops": ops, "tail": r.choice([20, 24, 40]),
             "rgbw": r.choice(["duck_rgb", "min_rgb", "white_only"]),
             # hardware-fading back ends: the longest fade the hardware does on its own, in ticks (2 and 8: longer fades are
             # stepped; 100: every fade is one command); batch: size of one list, extra lights with their own commands
-            "hwm": r.choice([2, 2, 8, 8, 100]), "bhwm": r.choice([0, 0, 2, 8, 100]), "bright": r.choice([4, 4, 4, 3, 2, 1]), "onc": list(onc),
+            "hwm": r.choice([2, 2, 8, 8, 100]), "bhwm": r.choice([0, 0, 2, 8, 100]), "bright": bright, "onc": list(onc),
             "bsize": r.choice([1, 2, 2, 3, 5, 16]),
             "fill": [[r.randrange(0, max(len(ops), 1)), r.randrange(3), list(r.choice(COLORS)), r.choice([0, 0, 2, 4, 8, 16])]
                      for _ in range(r.randint(0, 6))]}
@@ -513,6 +665,7 @@ class Run:
                 _, _, c, fade, p, key, stb = sub[:7]
                 self.commanded.append(tuple(c))
                 accepted = not (key in self.ref and p < self.ref[key][0])
+                self.note_coincidence(sub, t, accepted)
                 if accepted:
                     self.ref[key] = (p, tuple(c))
                     pk = (p, key)
@@ -527,14 +680,20 @@ class Run:
                                                   for name, _, _ in self.lights}}
             elif sub[1] == "remove":
                 key, fade = sub[2], sub[3]
+                self.since_prev_color.add("remove")
                 if key in self.ref:
+                    was_top = key == self.ref_top()
+                    gone = self.ref[key][1]
                     del self.ref[key]
+                    if was_top and self.ref and self.ref[self.ref_top()][1] == gone and kind != "probe":
+                        self.coincide("remove_of_top_key_whose_colour_equals_the_one_beneath")
                     if fade:
                         self.busy_until = max(self.busy_until, t + fade)
                         self.ghost_until = max(self.ghost_until, t + fade)
                     if self.top_fade is not None and self.top_fade["pk"][1] == key:
                         self.top_fade = None
             elif sub[1] == "clear":
+                self.since_prev_color.add("clear")
                 self.ref = {}
                 self.top_fade = None
             for name, nchan, lk in self.lights:
@@ -574,6 +733,50 @@ class Run:
                 if after != before[name]:
                     self.fail.append(("remove-does-not-restore", {"light": name, "t": t, "before": before[name], "after": after}))
 
+    def ref_top(self):
+        return max(self.ref, key=lambda kk: (self.ref[kk][0], kk)) if self.ref else None
+
+    def coincide(self, what):
+        self.coin[what] = self.coin.get(what, 0) + 1
+
+    def note_coincidence(self, sub, t, accepted):
+        """COUNTERS only: which of the coincidences the suppression logic of _schedule_update could confuse this colour
+        command is (judged on the oracle's reference stack and the light's own correction, not on the code's state)"""
+        _, _, c, fade, p, key, stb = sub[:7]
+        c = tuple(c)
+        light = self.vm.machine.lights[self.lights[0][0]]
+        prev = self.prev_color_op
+        self.prev_color_op = (t, sub[1:7], self.loop_runs)
+        if prev is not None and prev[0] != t and prev[1] == sub[1:7] and self.since_prev_color:
+            self.coincide("same_command_again_after_" + "_".join(sorted(self.since_prev_color)))
+        self.since_prev_color = set()
+        if prev is not None and prev[0] == t and prev[1] == sub[1:7]:
+            self.coincide("same_command_twice_at_one_instant" + ("_in_one_callback" if prev[2] == self.loop_runs else ""))
+        if not accepted or key == "zz":
+            return
+        top = self.ref_top()
+        shown = self.ref[top][1] if top is not None else (0, 0, 0)
+        on_top = top is None or (p, key) >= (self.ref[top][0], top)
+        rest = "at_rest" if t >= self.busy_until else "during_a_fade"
+        if on_top and c != shown and c == self.corrected(light, shown):
+            self.coincide("new_top_colour_is_corrected_image_of_the_shown_one_" + rest + ("_instant" if not fade else "_faded"))
+            if top is not None and key != top:
+                self.coincide("new_top_colour_is_corrected_image_of_the_shown_one_other_key")
+        if on_top and c != shown and tuple(shown) == self.corrected(light, c):
+            self.coincide("new_top_colour_has_the_shown_one_as_its_corrected_image_" + rest)
+        if on_top and c == shown and top is not None:
+            self.coincide("new_top_colour_equals_the_shown_one_" + ("same_key" if key == top else "other_key") +
+                          ("_faded" if fade else "_instant"))
+        if not on_top and any(c == cc for kk, (pp, cc) in self.ref.items() if kk != key):
+            self.coincide("same_colour_under_another_key_below_the_top")
+        if fade and stb == 0:
+            try:
+                below = tuple(light.get_color_below(p, key))
+            except Exception:  # noqa: counted only
+                return
+            if below == c:
+                self.coincide("fade_whose_target_equals_its_start")
+
     def advance_one(self):
         try:
             self.vm.advance(TICK)
@@ -609,6 +812,10 @@ class Run:
         self.obs = {}
         self.batch_lag = 0
         self.last_op_t = -1
+        self.coin = {}
+        self.prev_color_op = None
+        self.since_prev_color = set()
+        self.loop_runs = 0
         self.interval = {8: 1, 4: 2, 2: 4}[case["hz"]]
         cfg = config_yaml(case["hz"], case["profile"], rgbw=case.get("rgbw", "duck_rgb"), onc=case.get("onc", (255, 255, 255)))
         extra = None
@@ -638,6 +845,7 @@ class Run:
                     c09_batch.fill_ops(self, n)
                 if n + 1 < len(ops) and ops[n + 1][0] < 0:
                     continue
+                self.loop_runs += 1
                 try:
                     self.vm.advance(0)
                 except Exception as e:  # noqa
@@ -861,6 +1069,10 @@ def one_case(ctx, model, case, batch=False):
     ctx.count("samples", run.samples)
     for k, v in run.obs.items():
         ctx.count("observed_outside_property_" + k, v)
+    for k, v in run.coin.items():
+        ctx.count("coincidence_" + k, v)
+    if run.coin:
+        ctx.count("cases_with_a_dedupe_coincidence" + ("_batch" if batch else ""))
     if getattr(run, "profile_monotone", None) is not None:
         # observation only (not part of the property): the configured correction table is monotone and maps 0 to 0
         ctx.count("profile_table_monotone" if run.profile_monotone else "profile_table_not_monotone")
@@ -920,23 +1132,49 @@ CORPUS_BATCH = [
 ]
 
 
+CORPUS_DEDUPE = [
+    # brightness 0.5: white, then corrected(white) = (127,127,127) under the same key, then corrected of that under a key on
+    # top, which is removed again
+    {"hz": 8, "profile": False, "bright": 2, "tail": 24, "rgbw": "min_rgb",
+     "ops": [[0, "color", [255, 255, 255], 0, 1, "a", 0], [1, "color", [127, 127, 127], 0, 1, "a", 0],
+             [2, "color", [63, 63, 63], 0, 2, "b", 0], [3, "remove", "b", 0]]},
+    # brightness 0.75: a fade to X, finished; then corrected(X) instantly; the same with the fade just ending
+    {"hz": 4, "profile": False, "bright": 3, "tail": 24, "rgbw": "duck_rgb",
+     "ops": [[0, "color", [200, 120, 60], 4, 1, "a", 0], [6, "color", [150, 90, 45], 0, 1, "a", 0],
+             [2, "color", [200, 120, 60], 4, 3, "d", 0], [4, "color", [150, 90, 45], 2, 3, "d", 0]]},
+    # the profile p1: (255,255,255) -> (192,149,242) -> (103,43,216), last link inside one callback
+    {"hz": 8, "profile": True, "bright": 4, "tail": 24, "rgbw": "white_only",
+     "ops": [[0, "color", [255, 255, 255], 0, 3, "d", 0], [1, "color", [192, 149, 242], 0, 3, "d", 0],
+             [0, "color", [103, 43, 216], 0, 3, "d", 0], [-1, "color", [103, 43, 216], 0, 3, "d", 0]]},
+    # the same colour under another key above (fade whose target equals its start), the upper key removed (the colour
+    # beneath equals the removed one), the same command twice, a fade to the colour already shown
+    {"hz": 8, "profile": False, "bright": 4, "tail": 24, "rgbw": "min_rgb",
+     "ops": [[0, "color", [100, 100, 100], 0, 1, "a", 0], [0, "color", [100, 100, 100], 4, 2, "b", 0], [5, "remove", "b", 0],
+             [1, "color", [100, 100, 100], 0, 1, "a", 0], [-1, "color", [100, 100, 100], 0, 1, "a", 0],
+             [1, "color", [100, 100, 100], 8, 1, "a", 0], [2, "remove", "a", 4], [0, "remove", "a", 4]]},
+]
+
+
 def run(ctx):
     model = None if getattr(ctx, "model_unavailable", False) else leanproc.LeanProc(ID)
     try:
         for case in CORPUS:
             one_case(ctx, model, case)
+        table = correction_table()
+        for case in CORPUS_DEDUPE:
+            one_case(ctx, model, case)
         for i in range(ctx.n(250, 2000)):
-            one_case(ctx, model, gen_case(ctx.rng("case", i)))
+            one_case(ctx, model, gen_case(ctx.rng("case", i), table))
         try:
             from harness.common import c09_batch  # noqa
             have_batch = True
         except ImportError:
             have_batch = False
         if have_batch:
-            for case in CORPUS + CORPUS_BATCH:
+            for case in CORPUS + CORPUS_BATCH + CORPUS_DEDUPE:
                 one_case(ctx, model, case, batch=True)
             for i in range(ctx.n(120, 1000)):
-                one_case(ctx, model, gen_case(ctx.rng("batch", i)), batch=True)
+                one_case(ctx, model, gen_case(ctx.rng("batch", i), table), batch=True)
     finally:
         if model is not None:
             model.close()
